@@ -251,3 +251,118 @@ Proof.
       unfold rinteract. cbn [r_refl r_n1 r_n2 fst snd fin3]. rewrite Er. cbn [fst snd].
       replace (y + t * M + 0) with (y + t * M) by ring. reflexivity.
 Qed.
+
+(** the side conditions hold on a neighbourhood of e = 0 *)
+Lemma step_ok_ev N0 z0 ms rs a F h w :
+  wf_surf N0 z0 ms rs a -> (N0 = 1 \/ N0 = -1) -> fam_ok F h w N0 z0 ->
+  Ev (fun e => step_ok rs (F e)).
+Proof.
+  intros HW HN0 HF.
+  destruct (rnormal_conv _ _ _ _ _ _ _ _ HW HN0 HF) as (nu & Hnu & NXc & NYc & NZc).
+  generalize (Y1_conv _ _ _ _ _ _ _ _ HW HN0 HF) (ZL_conv rs F h w N0 z0 HF)
+             (T_conv _ _ _ _ _ _ _ _ HW HN0 HF); intros HY1 HZL HT.
+  destruct (fam_split _ _ _ _ _ HF) as (Hy & _ & HM & HN).
+  assert (HNne : Ev (fun e => fN F e <> 0)).
+  { apply (E2_ev_neq _ _ HN). destruct HN0; subst; lra. }
+  assert (Hrad : Ev (fun e => r_refl rs = false ->
+     let n := rnormal (r_shape rs) (fY1 rs F e) in
+     let dot := 0 * fst (fst n) + fM F e * snd (fst n) + fN F e * snd n in
+     0 <= 1 - r_n1 rs / r_n2 rs * (r_n1 rs / r_n2 rs) * (1 - Rabs dot * Rabs dot))).
+  { eapply Ev_mono; [|apply (radicand_ev (r_n1 rs) (r_n2 rs) N0 nu _ (w * N0) _ _ _ (fM F) (fN F) HN0 Hnu NXc NYc NZc HM HN)].
+    intros e He _. exact He. }
+  inversion HW as [zs msh rsh c n1 n2 refl Hsh Hz Hn]; subst.
+  cbn [r_z r_shape r_refl r_n1 r_n2] in *.
+  inversion Hsh as [|Rc k sg Hsg Hpos Hk]; subst.
+  - (* plane *)
+    assert (Ht : Ev (fun e => 0 <= fT (mkRS zs RPlane n1 n2 refl) F e)).
+    { eapply Ev_mono; [|apply (E2_ev_pos _ _ HT)]; [intros; cbv beta in *; lra|].
+      cbn [r_z]. lra. }
+    eapply Ev_mono; [|apply (Ev_and _ _ HNne (Ev_and _ _ Ht Hrad))].
+    intros e (A & B & C). unfold step_ok. cbn [r_z r_shape r_refl r_n1 r_n2].
+    repeat split; assumption.
+  - (* conic *)
+    assert (HR : Rc <> 0) by (intros E; rewrite E in Hpos; lra).
+    set (rs := mkRS zs (RStd Rc k sg) n1 n2 refl) in *.
+    assert (Ht : Ev (fun e => 0 <= fT rs F e)).
+    { eapply Ev_mono; [|apply (E2_ev_pos _ _ HT)]; [intros; cbv beta in *; lra|].
+      cbn [r_z rs]. lra. }
+    generalize (Af_ev_neq Rc k sg N0 (fM F) (fN F) (w * N0) HN0 Hpos Hk HM HN); intros Ha.
+    generalize (Df_ev_nonneg Rc k sg N0 (z0 - zs) (fY F) (fZL rs F) (fM F) (fN F) h (w * N0) HN0 Hpos Hk Hy HM HN HZL);
+      intros Hd.
+    generalize (zv_conv Rc k sg N0 (z0 - zs) (fY F) (fZL rs F) (fM F) (fN F) h (w * N0) HN0 Hsg Hpos Hk Hy HM HN HZL)
+               (zo_conv Rc k sg N0 (z0 - zs) (fY F) (fZL rs F) (fM F) (fN F) h (w * N0) HN0 Hsg Hpos Hk Hy HM HN HZL);
+      intros Hzv Hzo.
+    assert (Hsel : Ev (fun e => Rabs (fZL rs F e + conic_tv Rc k sg (fY F e) (fZL rs F e) (fM F e) (fN F e) * fN F e)
+                               < Rabs (fZL rs F e + conic_to Rc k sg (fY F e) (fZL rs F e) (fM F e) (fN F e) * fN F e))).
+    { apply (E2_ev_lt _ _ _ _ (E2_abs _ _ Hzv) (E2_abs _ _ Hzo)).
+      rewrite Rabs_R0. apply Rabs_pos_lt. unfold Rdiv.
+      apply Rmult_integral_contrapositive_currified; [lra|apply Rinv_neq_0_compat; exact Hk]. }
+    generalize (RAD_ev_pos Rc k (fY1 rs F) _ HR HY1); intros Hr.
+    eapply Ev_mono; [|apply (Ev_and _ _ HNne (Ev_and _ _ Ht (Ev_and _ _ Hrad (Ev_and _ _ Ha
+                               (Ev_and _ _ Hd (Ev_and _ _ Hsel Hr))))))].
+    intros e (A & B & C & D & E & G & H). unfold step_ok. cbn [r_z r_shape r_refl r_n1 r_n2 rs].
+    repeat split; assumption.
+Qed.
+
+(** ** the whole lens *)
+Definition rec_close (C e : R) (r : R * R * R * R) (p : R * R) : Prop :=
+  Rabs (st_y r / e - fst p) <= C * (e * e) /\ Rabs (st_M r / st_N r / e - snd p) <= C * (e * e).
+
+Lemma rec_close_mono C C' e r p : C <= C' -> rec_close C e r p -> rec_close C' e r p.
+Proof. intros H [A B]. assert (0 <= e * e) by nra. split; nra. Qed.
+
+Lemma fam_records F h w N0 z0 : (N0 = 1 \/ N0 = -1) -> fam_ok F h w N0 z0 ->
+  exists C d, 0 <= C /\ 0 < d /\ forall e, Rabs e < d -> e <> 0 -> rec_close C e (F e) (h, w).
+Proof.
+  intros HN0 HF. destruct (fam_split _ _ _ _ _ HF) as (Hy & _ & HM & HN).
+  assert (Hu : Od (fun e => fM F e / fN F e) w).
+  { eapply Od_lim; [conv|].
+    - destruct HN0; subst; lra.
+    - destruct HN0; subst; field. }
+  destruct (Od_scaled _ _ Hy) as (C1 & d1 & HC1 & Hd1 & B1).
+  destruct (Od_scaled _ _ Hu) as (C2 & d2 & HC2 & Hd2 & B2).
+  exists (Rmax C1 C2), (Rmin d1 d2). repeat split.
+  - eapply Rle_trans; [exact HC1|apply Rmax_l].
+  - apply Rmin_glb_lt; assumption.
+  - assert (0 <= e * e) by nra. eapply Rle_trans; [apply B1; auto|].
+    + eapply Rlt_le_trans; [eassumption|apply Rmin_l].
+    + apply Rmult_le_compat_r; [assumption|apply Rmax_l].
+  - assert (0 <= e * e) by nra. eapply Rle_trans; [apply B2; auto|].
+    + eapply Rlt_le_trans; [eassumption|apply Rmin_r].
+    + apply Rmult_le_compat_r; [assumption|apply Rmax_r].
+Qed.
+
+Lemma Forall2_mono {A B} (P Q : A -> B -> Prop) l1 l2 :
+  (forall a b, P a b -> Q a b) -> Forall2 P l1 l2 -> Forall2 Q l1 l2.
+Proof. intros H; induction 1; constructor; auto. Qed.
+
+Theorem real_trace_converges N0 z0 mss rss ass :
+  wf_sys N0 z0 mss rss ass ->
+  forall F h w, (N0 = 1 \/ N0 = -1) -> fam_ok F h w N0 z0 ->
+  exists C d, 0 <= C /\ 0 < d /\
+    forall e, Rabs e < d -> e <> 0 ->
+      exists recs, mtrace mss (fin4 (F e)) = Some (map fin4 recs) /\
+                   Forall2 (rec_close C e) recs (par_trace ass (h, w, z0)).
+Proof.
+  induction 1 as [N0 z0|N0 z0 ms rs a mss rss ass HW HS IH]; intros F h w HN0 HF.
+  - exists 0, 1. repeat split; try lra. intros e _ _. exists []. split; [reflexivity|constructor].
+  - destruct (par_step a (h, w, z0)) as [[h1 w1] z1] eqn:Ep.
+    destruct (rstep_conv _ _ _ _ _ _ _ _ _ _ _ HW HN0 HF Ep) as (HF' & Ez1). subst z1.
+    generalize (next_N0_pm rs N0 HN0); intros HN0'.
+    destruct (IH _ _ _ HN0' HF') as (C' & d' & HC' & Hd' & Htail).
+    destruct (fam_records _ _ _ _ _ HN0' HF') as (C1 & d1 & HC1 & Hd1 & Hhead).
+    destruct (step_ok_ev _ _ _ _ _ _ _ _ HW HN0 HF) as (d2 & Hd2 & Hok).
+    exists (Rmax C1 C'), (Rmin d1 (Rmin d2 d')). repeat split.
+    + eapply Rle_trans; [exact HC1|apply Rmax_l].
+    + repeat apply Rmin_glb_lt; assumption.
+    + intros e He Hne.
+      assert (E1 : Rabs e < d1) by (eapply Rlt_le_trans; [exact He|apply Rmin_l]).
+      assert (E2' : Rabs e < d2) by (eapply Rlt_le_trans; [exact He|]; eapply Rle_trans; [apply Rmin_r|apply Rmin_l]).
+      assert (E3 : Rabs e < d') by (eapply Rlt_le_trans; [exact He|]; eapply Rle_trans; [apply Rmin_r|apply Rmin_r]).
+      destruct (Htail e E3 Hne) as (recs & Hm & Hall).
+      exists (rstep rs (F e) :: recs). split.
+      * cbn [mtrace map]. rewrite (mstep_fin _ _ _ _ _ _ HW (Hok e E2')). rewrite Hm. reflexivity.
+      * cbn [par_trace]. rewrite Ep. constructor.
+        -- apply rec_close_mono with C1; [apply Rmax_l|]. apply Hhead; assumption.
+        -- eapply Forall2_mono; [|exact Hall]. intros r p Hc. apply rec_close_mono with C'; [apply Rmax_r|exact Hc].
+Qed.
